@@ -261,3 +261,28 @@ def mutations(rng, n, reader="cursor"):
             else:
                 d[i:i] = d[i:i + rng.choice([1, 2, 8])]
         yield case_line(reader, rng.random() < 0.5, bytes(d)), "mutation"
+
+
+def dim_sensitive(rng, n, reader="cursor"):
+    """lossless payloads whose validity depends on the dimensions they are read with (transforms / meta prefix images sized from
+    width and height), in every place a lossless stream can stand: still VP8L, still ALPH, VP8L and ALPH inside ANMF frames smaller
+    than the canvas; each with the stream built for the right dimensions and for the wrong ones (canvas instead of frame ...)"""
+    from props import _c07_vp8l as G
+    for _ in range(n):
+        cw, ch = rng.randint(8, 64), rng.randint(8, 64)
+        fw, fh = rng.randint(1, cw - 1), rng.randint(1, ch - 1)
+        order = rng.choice([[0], [1], [0, 1], [1, 0], [3, 0], [0, 3], []])
+        def stream(w, h):
+            return G.build(rng, size=(w, h), order=order, pixel_budget=300, meta=(True if not order else None))[2]
+        for (sw, sh), tag in (((fw, fh), "frame"), ((cw, ch), "canvas"), ((fh, fw), "swapped")):
+            body = stream(sw, sh)
+            f = riff(mk(b"VP8X", flags=ANIM | ALPHA, cw=cw, ch=ch) + mk(b"ANIM") +
+                     chunk(b"ANMF", anmf_payload(chunk(b"ALPH", b"\1" + body) + mk(b"VP8 "), w=fw, h=fh)))
+            yield case_line(reader, False, f), "dims-anmf-alph-" + tag
+            f = riff(mk(b"VP8X", flags=ANIM, cw=cw, ch=ch) + mk(b"ANIM") +
+                     chunk(b"ANMF", anmf_payload(chunk(b"VP8L", vp8l_payload(fw, fh, body)), w=fw, h=fh)))
+            yield case_line(reader, False, f), "dims-anmf-vp8l-" + tag
+        for (sw, sh), tag in (((cw, ch), "canvas"), ((fw, fh), "other")):
+            body = stream(sw, sh)
+            yield case_line(reader, False, riff(mk(b"VP8X", flags=ALPHA, cw=cw, ch=ch) + chunk(b"ALPH", b"\1" + body) + mk(b"VP8 "))), "dims-still-alph-" + tag
+            yield case_line(reader, False, riff(mk(b"VP8X", cw=cw, ch=ch) + chunk(b"VP8L", vp8l_payload(cw, ch, body)))), "dims-still-vp8l-" + tag
